@@ -374,7 +374,8 @@ Definition ht_create (p : ht_params) (d amt sender to lock : Z) (s : supply) (ba
         else match a_fixed a with
         | None => Panic 317                                  (* FixedFee.Add on nil *)
         | Some f =>
-            if amt <? f + mn then Reject
+            if negb (int_ok (f + mn)) then Panic 318         (* FixedFee.Add(MinSwapAmount): "integer overflow" *)
+            else if amt <? f + mn then Reject
             else match s with
             | None => Reject
             | Some (inc, out, cur, tlc) =>
@@ -702,16 +703,20 @@ Definition tk_op_wf (o : tk_op) : Prop :=
   | TkOther => True
   end.
 
-(** (2) The known finding: a creation / issue fee amount of 2^255.2 or more overflows the 315-bit
-    [LegacyDec] inside the fee split.  [*_small] excludes exactly that. *)
+(** (2) The known findings (extreme magnitudes): a creation / issue fee amount of 2^255.2 or more
+    overflows the 315-bit [LegacyDec] inside the fee split.  [*_small] excludes that. *)
 Definition cs_small (p : cs_params) : Prop := amt_or0 (c_amt (cs_pcf p)) < two255.
 Definition fm_small (p : fm_params) : Prop := amt_or0 (c_amt (fm_pcf p)) < two255.
 Definition tk_small (p : tk_params) : Prop := amt_or0 (c_amt (tk_fee p)) < two255.
-Definition ps_small (s : pstate) : Prop := cs_small (ps_cs s) /\ fm_small (ps_fm s) /\ tk_small (ps_tk s).
+(** same family in htlc: [FixedFee.Add(MinSwapAmount)] overflows the 256-bit Int *)
+Definition ht_small (p : ht_params) : Prop :=
+  Forall (fun a => amt_or0 (a_fixed a) + amt_or0 (a_min a) < two256) p.
+Definition ps_small (s : pstate) : Prop :=
+  cs_small (ps_cs s) /\ fm_small (ps_fm s) /\ tk_small (ps_tk s) /\ ht_small (ps_ht s).
 
 Definition step_wf (st : pstep) : Prop :=
   match st with
-  | UpdCS _ p => cs_small p | UpdFM _ p => fm_small p | UpdTK _ p => tk_small p
+  | UpdCS _ p => cs_small p | UpdFM _ p => fm_small p | UpdTK _ p => tk_small p | UpdHT _ p => ht_small p
   | OpCS o => cs_op_wf o | OpSV o => sv_op_wf o | OpTK o => tk_op_wf o
   | _ => True
   end.
